@@ -10,6 +10,8 @@
             is a decoy).  It does `WriteHeader(code)` unless code = 0 and, unless the body is
             empty, `Write(body ++ decimal(len(vals)))`.
     pre     `-` | wh:<code> | w:<hex>   a middleware writes this and calls Next() first
+            | cx   the request's context is cancelled WHILE the returning handler runs: its values are rendered all
+                   the same (`handleReturn` comes before the next look at the context), then the chain stops
 
   op:   R <ph-hex> <value>*           one request; the handler returns these values
   out:  <status> <body-hex> <next-ran 0|1> <panicked 0|1>
@@ -98,7 +100,7 @@ def session (args : List String) (lines : List (List String)) : List String :=
       | some s =>
         let o0 := Out.run { w := Writer.init head } pre
         let o := respondFrom o0 (hexOf ph) req app s
-        let next := hasNext && o.continues
+        let next := hasNext && o.continues && !(args.getD 4 "-" == "cx")
         s!"{o.w.status} {o.body.toHex} {if next then 1 else 0} {if o.panicked then 1 else 0}"
     | _ => "bad-op"
   "new" :: lines.map one
